@@ -51,6 +51,12 @@ pub struct GenOpts {
     pub custom_help: bool,
     /// chains of `adjacent()` commands (`cmd1 --a cmd2 --b cmd1 ..`)
     pub adjacent_cmds: bool,
+    /// `cmd.fallback(..)` / `cmd.fallback_with(..)`: a subcommand with a default
+    pub cmd_fallback: bool,
+    /// `positional(..).hide()` under the optional/repeating wrapper
+    pub hidden_positionals: bool,
+    /// a command of an adjacent chain may end with a typed word under `fallback`
+    pub adjacent_cmd_default_word: bool,
 }
 
 impl GenOpts {
@@ -87,6 +93,9 @@ impl GenOpts {
             adjacent_in_adjacent: false,
             custom_help: false,
             adjacent_cmds: false,
+            cmd_fallback: false,
+            hidden_positionals: false,
+            adjacent_cmd_default_word: false,
         }
     }
     pub fn general() -> GenOpts {
@@ -122,6 +131,9 @@ impl GenOpts {
             adjacent_in_adjacent: false,
             custom_help: false,
             adjacent_cmds: false,
+            cmd_fallback: false,
+            hidden_positionals: false,
+            adjacent_cmd_default_word: false,
         }
     }
 }
@@ -135,6 +147,13 @@ const LONGS: &[&str] = &[
     "kilo", "lima", "mike", "nov_ember", "oscar", "papa", "quebec", "romeo", "sierra", "tango",
     "uniform", "victor", "whiskey", "xray", "yankee", "zulu", "verbose", "output", "input",
     "dry-run", "level", "jobs", "x", "no-color", "target2",
+];
+// names wider than the 24-column tab stop of the help layout and of the bash/zsh candidate
+// column; the first two agree in their first 24 characters (with the dashes)
+const WIDE_LONGS: &[&str] = &[
+    "allow-invalid-certificates",
+    "allow-invalid-certificate-chains",
+    "x86-64-unknown-linux-gnu-static",
 ];
 // (the longer ones are wider in bytes than the 24-column tab stop of the help layout while
 // being narrower in characters)
@@ -208,6 +227,8 @@ impl<'a> Pool<'a> {
         loop {
             let base = if self.o.nonascii && self.rng.chance(1, 8) {
                 *self.rng.pick(NONASCII_LONGS)
+            } else if self.rng.chance(1, 16) {
+                *self.rng.pick(WIDE_LONGS)
             } else {
                 *self.rng.pick(LONGS)
             };
@@ -524,7 +545,10 @@ impl<'a> Pool<'a> {
                 Strict::Strict
             };
             let it = Spec::Item(self.pos_item(strict));
-            let it = self.decorate(it);
+            let mut it = self.decorate(it);
+            if self.o.hidden_positionals && ix >= n_req && self.rng.chance(1, 4) {
+                it = Spec::wrap(W::Hide, self.id(), it);
+            }
             let s = if ix < n_req {
                 it
             } else if ix < n_req + n_opt {
@@ -644,7 +668,19 @@ impl<'a> Pool<'a> {
             }
             // `eat FOOD`: a single required word (an optional or repeated one would swallow the
             // name of the next command)
-            if self.rng.chance(1, 3) {
+            if self.o.adjacent_cmd_default_word && self.rng.chance(1, 3) {
+                // `sleep [SECONDS]`: a typed word with a default
+                let mut it = self.pos_item(Strict::Any);
+                if let Leaf::Pos { ty, .. } = &mut it.leaf {
+                    *ty = Ty::U32;
+                }
+                let w = if self.rng.chance(1, 2) {
+                    W::Fallback
+                } else {
+                    W::FallbackWithOk
+                };
+                fields.push(Spec::wrap(w, self.id(), Spec::Item(it)));
+            } else if self.rng.chance(1, 3) {
                 fields.push(Spec::Item(self.pos_item(Strict::Any)));
             }
             let mut opts = OptSpec::plain(Spec::Seq(fields));
@@ -1092,6 +1128,13 @@ impl<'a> Pool<'a> {
             let a = Spec::Alt(cmds);
             let mut cf = if self.rng.chance(1, 4) {
                 Spec::wrap(W::Optional { catch: false }, self.id(), a)
+            } else if self.o.cmd_fallback && self.rng.chance(1, 3) {
+                let w = if self.rng.chance(1, 2) {
+                    W::Fallback
+                } else {
+                    W::FallbackWithOk
+                };
+                Spec::wrap(w, self.id(), a)
             } else {
                 a
             };
